@@ -47,6 +47,10 @@ struct Agg {
     digests: BTreeMap<u64, String>,
     runs_done: u64,
     harness_errors: Vec<String>,
+    /// the batch was cut short because run after run exceeded its CPU limit
+    /// (a systematic hang: the rest of the batch would take hours and say
+    /// the same thing)
+    stopped_early: bool,
 }
 
 fn cpu_seconds(pid: u32) -> f64 {
@@ -147,7 +151,7 @@ fn spawn_worker(a: &CheckArgs, sh: &Shard, mode: &str) -> std::process::Child {
 /// Run one shard to completion, restarting the worker after each death.
 fn run_shard(a: Arc<CheckArgs>, mut sh: Shard, mode: &'static str, agg: Arc<Mutex<Agg>>, states: Arc<Mutex<Vec<WorkerState>>>, slot: usize) {
     loop {
-        if sh.from >= sh.to {
+        if sh.from >= sh.to || agg.lock().unwrap().stopped_early {
             states.lock().unwrap()[slot].done = true;
             return;
         }
@@ -173,6 +177,14 @@ fn run_shard(a: Arc<CheckArgs>, mut sh: Shard, mode: &'static str, agg: Arc<Mute
             };
             let t = v["t"].as_str().unwrap_or("");
             let pid = child.id();
+            if agg.lock().unwrap().stopped_early {
+                unsafe {
+                    libc::kill(pid as i32, libc::SIGKILL);
+                }
+                let _ = child.wait();
+                states.lock().unwrap()[slot].done = true;
+                return;
+            }
             match t {
                 "begin" | "step" => {
                     let mut st = states.lock().unwrap();
@@ -208,7 +220,14 @@ fn run_shard(a: Arc<CheckArgs>, mut sh: Shard, mode: &'static str, agg: Arc<Mute
                         let st = states.lock().unwrap();
                         if st[slot].cur_run == Some(run) { st[slot].cur_step } else { 0 }
                     };
-                    agg.lock().unwrap().crashes.push((run, step, reason));
+                    {
+                        let mut g = agg.lock().unwrap();
+                        g.crashes.push((run, step, reason));
+                        let hangs = g.crashes.iter().filter(|c| c.2 == "signal24" || c.2 == "signal9" || c.2 == "hang").count();
+                        if hangs >= 5 {
+                            g.stopped_early = true;
+                        }
+                    }
                     let mut st = states.lock().unwrap();
                     st[slot].cur_run = None;
                     st[slot].last_progress = real_now();
@@ -246,7 +265,12 @@ fn run_shard(a: Arc<CheckArgs>, mut sh: Shard, mode: &'static str, agg: Arc<Mute
         };
         match cur_run {
             Some(r) => {
-                agg.lock().unwrap().crashes.push((r, cur_step, reason));
+                let mut g = agg.lock().unwrap();
+                g.crashes.push((r, cur_step, reason));
+                if g.crashes.iter().filter(|c| c.2 == "signal24" || c.2 == "signal9" || c.2 == "hang").count() >= 5 {
+                    g.stopped_early = true;
+                }
+                drop(g);
                 sh.from = r + sh.stride;
             }
             None => {
@@ -468,7 +492,8 @@ pub fn check_main(args: CheckArgs) -> i32 {
             continue;
         }
         // confirm in a fresh process, then minimise
-        let budget = (if a.tier == "quick" { 20.0f64 } else { 60.0 }).min(min_budget_left.max(0.0));
+        // (every minimisation trial of a hang costs a full CPU limit: verify only)
+        let budget = if class == "I1-abort:hang" { 0.0 } else { (if a.tier == "quick" { 20.0f64 } else { 60.0 }).min(min_budget_left.max(0.0)) };
         let tm = real_now();
         let (min, verified) = minimize::minimise_and_verify(first, &tmpdir, budget);
         min_budget_left -= real_now() - tm;
@@ -573,6 +598,10 @@ pub fn check_main(args: CheckArgs) -> i32 {
             return 1;
         }
         return 2;
+    }
+    if agg.stopped_early || agg_b.stopped_early || agg_c.stopped_early {
+        println!("# a batch was cut short: run after run exceeded its CPU limit ({} + {} + {} runs completed)", agg.runs_done, agg_c.runs_done, agg_b.runs_done);
+        return if violations_reported > 0 { 1 } else { 2 };
     }
     if agg.runs_done + (agg.crashes.len() as u64) < total_a {
         println!("HARNESS-ERROR: only {} of {} runs completed", agg.runs_done, total_a);
